@@ -14,6 +14,13 @@ sample(...) of each are taken.  Modes:
   follow Hypergraph.get_mapping(), as the sampler does).  Hyperedges of size one are not generated (the statement
   promises sizes >= 2 for the output, so they are not admissible in the input).  Plus hard community assignments (one-hot u)
   with a diagonal w and an initial hypergraph containing a hyperedge across communities (Poisson parameter exactly zero).
+  In all of the above the model's max_hye_size is left to its default (N).  "initial" with an EXPLICIT max_hye_size (the
+  statement bounds the sizes by the model's maximum only "when sampling from the model"; conditioning on an initial
+  hypergraph holds for all samplers, whatever their max_hye_size): every hypergraph on 3 nodes (11) with max_hye_size 2 and
+  3; EXHAUSTIVE over the 58 hypergraphs on 4 nodes whose hyperedges have pairwise distinct sizes, with max_hye_size 2, 3
+  and 4; random hypergraphs with pairwise distinct sizes (one hyperedge for each size of a random set of >= 2 sizes in
+  2..N, N <= 8, largest size L >= 3) and random ones with repeated sizes (L >= 3), each with max_hye_size in
+  {2, L-1 (below the largest initial hyperedge), L (equal), N, None}; all label kinds, weighted or not.
 * "sequences": sample(deg_seq=..., dim_seq=...) with sum(deg_seq) = sum(size * count), >= 2 hyperedges, sizes 2..min(N,5);
   degree sequences realisable (degrees of a random hypergraph with these sizes), arbitrary, or concentrated on few nodes
   (not realisable); integer and float arrays; allow_rescaling False and True.  Whether the greedy construction matched
@@ -30,6 +37,10 @@ model / deg only); nodes are nodes of the model (0..N-1) / of the initial hyperg
 (initial; sequences reported as matching); conditioned size counts never exceeded (initial; sequences, matching or not;
 dim only); when the sample has as many hyperedges as the conditioning (= no two sampled hyperedges coincided and none
 was dropped) every node has exactly its conditioned degree and every size its count (initial; matching sequences).
+When the hyperedges of the initial hypergraph have pairwise distinct sizes the premise "no two sampled hyperedges
+coincided" holds by the statement itself (no size exceeds its count of one, so two sampled hyperedges never have the same
+size): there the exact degree / exact size clauses are checked on EVERY sample, from the produced hypergraph alone,
+without looking at the raw configuration (so hyperedges left out of the chain are seen as well).
 Per case: the two samplers give the same 5 hypergraphs (hyperedges with weights); sample() does not raise.
 
 Oracle: Counter arithmetic on the hyperedges returned by Hypergraph.get_edges()/get_weights(); degrees = number of
@@ -136,7 +147,8 @@ def _snapshot(H):
 def _one_run(np, Hypergraph, Sampler, cfg):
     """Build one sampler, draw N_SAMPLES hypergraphs.  Returns dict(error=..., samples=[(edges, weights, weighted)], matching=..)."""
     mode = cfg["mode"]
-    out = dict(error=None, samples=[], raw_distinct=[], matching=None, N=None, nodes=None, deg=None, dim=None, total=None)
+    out = dict(error=None, samples=[], raw_distinct=[], matching=None, N=None, nodes=None, deg=None, dim=None, total=None,
+               distinct_sizes=False)
     H = None
     if mode == "initial":
         H = _build_initial(Hypergraph, cfg)
@@ -146,6 +158,7 @@ def _one_run(np, Hypergraph, Sampler, cfg):
         out["deg"] = collections.Counter(v for e in he for v in set(e))
         out["dim"] = collections.Counter(len(set(e)) for e in he)
         out["total"] = len(he)
+        out["distinct_sizes"] = max(out["dim"].values()) == 1
     else:
         N = cfg["N"]
         out["nodes"] = set(range(N))
@@ -260,7 +273,9 @@ def _case(cfg):
                 check(all(dim[d] <= r["dim"].get(d, 0) for d in dim), "no size exceeds its conditioned count",
                       expected=dict(r["dim"]), observed=dict(dim), extra=dict(ex, matching_sequences=r["matching"]))
             rd = r["raw_distinct"][k] if k < len(r["raw_distinct"]) else None
-            if cond_deg and (rd if rd is not None else len(sets) == r["total"]):
+            # initial hyperedges of pairwise distinct sizes: sampled hyperedges cannot coincide (sizes are conditioned), the
+            # premise needs no look at the raw configuration
+            if cond_deg and (r["distinct_sizes"] or (rd if rd is not None else len(sets) == r["total"])):
                 check(all(deg.get(v, 0) == r["deg"].get(v, 0) for v in r["nodes"]),
                       "every node has exactly its conditioned degree when nothing coincided", expected=dict(r["deg"]),
                       observed=dict(deg), extra=ex)
@@ -342,6 +357,53 @@ def _plan(quick, seed):
         es = [list(e) for e in sorted(es)]
         emit(dict(mode="initial", edges=es, isolated=[], labels=R.choice(["id", "shift", "str"]), K=K, w="diagonal", u="hard",
                   scale=R.choice([0.5, 1.0, 3.0])), [(0, 0), (0, 1), (1, 0), (20, 1)], 1)
+    # ---- initial hypergraphs, sampler built with an explicit max_hye_size: below / equal to / above the largest initial hyperedge
+    three = [e for d in (2, 3) for e in itertools.combinations(range(3), d)]
+    j = 0
+    for m in range(2, len(three) + 1):
+        for es in itertools.combinations(three, m):
+            j += 1
+            for D in (2, 3):
+                emit(dict(mode="initial", edges=[list(e) for e in es], isolated=[], labels="id", K=1 + j % 3,
+                          w="full" if j % 2 else "diagonal", max_hye_size=D), [STEPS[(j + 4 * D + 3 * k) % 9] for k in range(3)], 1)
+    # pairwise distinct sizes on 4 nodes, all of them: one hyperedge for each size of a set of >= 2 sizes
+    by_size = {d: list(itertools.combinations(range(4), d)) for d in (2, 3, 4)}
+    j = 0
+    for n_sizes in (2, 3):
+        for sizes in itertools.combinations((2, 3, 4), n_sizes):
+            for es in itertools.product(*(by_size[d] for d in sizes)):
+                j += 1
+                covered = {v for e in es for v in e}
+                for D in (2, 3, 4):
+                    steps = [STEPS[(j + 2 * D + 4 * k) % 9] for k in range(2)] if quick else STEPS
+                    emit(dict(mode="initial", edges=[list(e) for e in es], isolated=[v for v in range(4) if v not in covered],
+                              labels="id", K=1 + j % 3, w="full" if j % 2 else "diagonal", max_hye_size=D), steps, 1)
+    # random: pairwise distinct sizes (no coincidence possible), then repeated sizes; largest size L >= 3
+    for j in range(48 if quick else 320):
+        distinct = j % 2 == 0
+        N = R.randint(3, 8)
+        if distinct:
+            sizes = R.sample(range(2, N + 1), R.randint(2, min(N - 1, 5)))
+            if max(sizes) < 3:
+                sizes.append(3)
+        else:
+            sizes = [R.randint(2, min(N, 6)) for _ in range(R.randint(2, 7))] + [R.randint(3, min(N, 6))]
+        es = set()
+        for d in sizes:
+            es.add(tuple(sorted(R.sample(range(N), d))))
+        es = [list(e) for e in sorted(es)]
+        if len(es) < 2:
+            continue
+        L = max(len(e) for e in es)
+        covered = {v for e in es for v in e}
+        iso = [v for v in range(N) if v not in covered and R.random() < 0.5]
+        base = dict(mode="initial", edges=es, isolated=iso, labels=R.choice(["id", "shift", "str"]), K=R.randint(1, 3),
+                    w=R.choice(["full", "diagonal"]), scale=R.choice([0.05, 1.0, 5.0]))
+        if R.random() < 0.5:
+            base["weights"] = [R.randint(1, 5) for _ in es]
+        for i, D in enumerate(sorted({2, L - 1, L, N}) + [None]):
+            steps = [STEPS[(j + i + 4 * k) % 9] for k in range(2)] if quick else STEPS
+            emit(dict(base, max_hye_size=D), steps, 1)
     # ---- degree and size sequences with equal totals
     for j in range(45 if quick else 450):
         N = R.randint(2, 8) if j >= 4 else 2
@@ -408,11 +470,15 @@ def _workers():
 def run(ctx):
     ctx.rule("one case = one sampler configuration (mode, u, w, burn-in, thinning, seed) run twice, first 5 samples each; "
              "initial hypergraphs: all with >=2 hyperedges on 3 nodes and with 2-3 hyperedges on 4 nodes, then random on <=8 "
-             "nodes (labels 0..N-1 / shifted / strings, weighted or not, isolated nodes); sequences with equal totals: "
+             "nodes (labels 0..N-1 / shifted / strings, weighted or not, isolated nodes), max_hye_size default; again with an "
+             "explicit max_hye_size below / equal to / above the largest initial hyperedge (all on 3 nodes, all with pairwise "
+             "distinct sizes on 4 nodes, random with distinct and with repeated sizes); sequences with equal totals: "
              "realisable / arbitrary / concentrated; model: four parameter scales x max_hye_size x exact_dyadic; one "
              "sequence only. A case is non-trivial if some produced hypergraph has at least two hyperedges.")
     ctx.assume("'no two sampled hyperedges coincided' is observed on the raw configuration yielded by the instance's _mcmc_routine "
-               "(wrapped by the driver); fallback when that routine is absent: the sample has as many hyperedges as the conditioning")
+               "(wrapped by the driver); fallback when that routine is absent: the sample has as many hyperedges as the conditioning; "
+               "for an initial hypergraph whose hyperedges have pairwise distinct sizes the premise is taken to hold always "
+               "(sizes are conditioned, so no two sampled hyperedges have the same size)")
     ctx.assume("matching_sequences (public attribute) is trusted to say whether the greedy construction matched")
     ctx.assume("degree of a node = number of produced hyperedges containing it; hyperedges compared as node sets")
     ctx.assume("numpy Generator / scipy.stats.poisson.ppf behave as documented (weights >= 1 from the truncated Poisson)")
@@ -432,6 +498,13 @@ def run(ctx):
         ctx.count("cases: " + cfg["mode"])
         if res["raised"]:
             ctx.count("cases that raised: " + cfg["mode"])
+        if cfg["mode"] == "initial" and cfg.get("max_hye_size") is not None:
+            L = max(len(e) for e in cfg["edges"])
+            D = cfg["max_hye_size"]
+            ctx.count("cases: initial with explicit max_hye_size %s the largest initial hyperedge" %
+                      ("below" if D < L else "equal to" if D == L else "above"))
+        if cfg["mode"] == "initial" and len({len(e) for e in cfg["edges"]}) == len(cfg["edges"]):
+            ctx.count("cases: initial with hyperedges of pairwise distinct sizes (exact clauses on every sample)")
         if cfg["mode"] == "sequences":
             ctx.count("sequences reported as %s (%s)" % ({True: "matching", False: "not matching"}.get(res["matching"], "unknown"),
                                                          cfg["kind"]))
@@ -451,6 +524,10 @@ def run(ctx):
     ctx.exhaustive_parts.append("initial hypergraphs: every hypergraph with >= 2 hyperedges (sizes >= 2) on 3 nodes%s, each with "
                                 "all nine (burn-in, thinning) pairs in {0,1,20}^2" %
                                 ("" if ctx.quick else " and every one with 2 or 3 hyperedges on 4 nodes"))
+    ctx.exhaustive_parts.append("initial hypergraphs x explicit max_hye_size: every hypergraph with >= 2 hyperedges on 3 nodes with "
+                                "max_hye_size 2 and 3 (three (burn-in, thinning) pairs each); every hypergraph on 4 nodes whose >= 2 "
+                                "hyperedges have pairwise distinct sizes (58) with max_hye_size 2, 3 and 4 (%s (burn-in, thinning) "
+                                "pairs each)" % ("two" if ctx.quick else "all nine"))
 
 
 def replay(data):
